@@ -842,6 +842,10 @@ impl Rasn {
             ASN1Value::Boolean(b) => Ok(b.to_token_stream()),
             ASN1Value::Integer(i) => Ok(Literal::i128_unsuffixed(*i).to_token_stream()),
             ASN1Value::String(s) => Ok(s.to_token_stream()),
+            ASN1Value::Real(r) if !r.is_finite() => Err(error!(
+                NotYetInplemented,
+                "Numbers outside the range of f64 are currently unsupported!"
+            )),
             ASN1Value::Real(r) => Ok(r.to_token_stream()),
             ASN1Value::BitStringNamedBits(_) => Err(GeneratorError {
                 top_level_declaration: None,
